@@ -209,6 +209,8 @@ def replay_behaviour(pool, calls, tid):
         for pi in range(min(3, len(ses.pts))):
             a = J.outcome_of(lambda: o.at(ses.pts[pi]))
             b = J.outcome_of(lambda: fz.at(ses.pts[pi]))
+            if "timeout" in (a.get("k"), b.get("k")):
+                continue
             if a.get("k") != b.get("k") or a.get("repr") != b.get("repr"):
                 probe_ok = False
                 bad_probe = {"node": i + 1, "point": pool["points"][pi], "used_object": a, "fresh_copy": b}
@@ -228,6 +230,8 @@ def replay_behaviour(pool, calls, tid):
             else:
                 vq = pool["vars"][0]
                 a = J.outcome_of(lambda: d.at(pt).component(vq)); b = J.outcome_of(lambda: S.Differential(robj, compute_early=key[2]).at(pt).component(vq))
+            if "timeout" in (a.get("k"), b.get("k")):
+                continue
             same = a.get("k") == b.get("k") and (a["k"] not in NUMK or abs(float(a["repr"]) - float(b["repr"])) <= 1e-9 * max(1.0, abs(float(b["repr"]))))
             if a.get("k") in NUMK and b.get("k") in NUMK:
                 same = abs(float(a["repr"]) - float(b["repr"])) <= 1e-9 * max(1.0, abs(float(b["repr"])))
